@@ -18,7 +18,7 @@ pub fn case_event(id: u64, c: &Case, bg: Bg, out: &StepOut) -> String {
         j_str(&c.row),
         bg.name(),
         j_u32s(&c.regs.vec19()),
-        j_pairs(&c.pokes),
+        j_runs(&c.pokes),
         j_bytes(&c.pend),
         out.res,
         j_u32s(&out.post.vec19()),
@@ -202,7 +202,13 @@ pub fn run_replay(args: &Args) -> Result<()> {
         }
         regs.ccr = pre[16] as u8;
         regs.pc = (pre[17] << 16) | pre[18];
-        let pokes = v["pk"].as_array().ok_or_else(|| anyhow!("pk"))?.iter().map(|p| (p[0].as_u64().unwrap_or(0) as u32, p[1].as_u64().unwrap_or(0) as u8)).collect();
+        let mut pokes: Vec<(u32, u8)> = Vec::new();
+        for run in v["pk"].as_array().ok_or_else(|| anyhow!("pk"))? {
+            let st = run[0].as_u64().unwrap_or(0) as u32;
+            for (i, b) in run[1].as_array().ok_or_else(|| anyhow!("run"))?.iter().enumerate() {
+                pokes.push((st + i as u32, b.as_u64().unwrap_or(0) as u8));
+            }
+        }
         let pend = v["pend"].as_array().map(|a| a.iter().map(|x| x.as_u64().unwrap_or(0) as u8).collect()).unwrap_or_default();
         let c = Case { drv: v["drv"].as_str().unwrap_or("").to_string(), row: v["row"].as_str().unwrap_or("").to_string(), regs, pokes, pend };
         let bg = if v["bg"] == "zero" { Bg::Zero } else { Bg::Tag };
